@@ -135,6 +135,23 @@ def tag_fn(name):
         return lambda x: tuple(x)
     if name == "f_identity":
         return lambda x: x
+    if name in ("f_mutate", "f_mutate_all"):
+        def mutate(x):
+            before = copy.deepcopy(x)
+            stack = [x]
+            while stack:
+                v = stack.pop()
+                if isinstance(v, dict):
+                    stack.extend(v.values())
+                    v["__scribble__"] = 1
+                elif isinstance(v, list):
+                    stack.extend(v)
+                    v.append("__scribble__")
+                elif isinstance(v, tuple):
+                    stack.extend(v)
+            return ("mut", before)
+
+        return mutate
     if name.startswith("f_const:"):
         import ast
 
